@@ -18,7 +18,7 @@ before the device lock is taken in process_write_batch; thread entries never blo
 TtlSweeper::stop joins only when the caller is not the sweeper thread; FeoxStore::drop stops the sweeper, flags shutdown,
 joins workers and only then shuts the device down. Not decided: progress of retry loops (fairness/timing).
 """
-DECIDED = ['the out-of-space branch asks to be re-run only if sectors were released since a snapshot taken at entry', "lock-order + wait graph acyclic, no self edge", "no self-join", "shutdown order", "workers poll with timeouts",
+DECIDED = ['every compare-exchange retry loop refreshes the expected value after a lost exchange', 'the out-of-space branch asks to be re-run only if sectors were released since a snapshot taken at entry', "lock-order + wait graph acyclic, no self edge", "no self-join", "shutdown order", "workers poll with timeouts",
            "the final flush loop and the sweeper's loops are structurally bounded; the sweeper polls the flag stop() raises and never pins the store",
            'the reader count of an extent always comes back down (no phantom reader)',
            'every prepared write of a failed batch is requeued, so no retirement waits for a successor that was dropped']
@@ -540,7 +540,44 @@ def check_requeue(ctx):
     _c.check_requeue_whole(ctx, "C18.requeue")
 
 
+def check_cas_loops(ctx):
+    """a compare-exchange retry loop makes progress only if a lost exchange refreshes the value it expects: on every way from a
+    compare_exchange back to the same compare_exchange the `current` operand is re-obtained (the failure payload is assigned to
+    it, or it is loaded again). A loop that retries with the value it read once spins for ever as soon as another thread moves
+    the atomic in between - while the caller still holds whatever it holds (VersionClock::observe runs under the bucket guard)."""
+    inst = "C18.cas-loops"
+    prog = ctx.prog
+    n_loops = 0
+    n_sites = 0
+    for b in prog.product_bodies():
+        for n in b.calls():
+            if not any(call_matches(n.ev, x) for x in ("Atomic::compare_exchange", "Atomic::compare_exchange_weak", "Atomic*::compare_exchange", "Atomic*::compare_exchange_weak")):
+                continue
+            if len(n.ev["args"]) < 2:
+                continue
+            n_sites += 1
+            r0, _ = A.reach(b, A.succs(b, n.id), sensitive=False)
+            if n.id not in r0:
+                continue        # not retried
+            n_loops += 1
+            e = A.tracer(b, transparent=False).operand(n.ev["args"][1])
+            refresh = set()
+            for x in e.walk():
+                if x.k == "local":
+                    refresh |= set(b.defs.get(x.extra, []))
+                elif x.k == "call" and x.nid is not None:
+                    refresh.add(x.nid)      # `cas(a.load(), ..)`: re-evaluated on every iteration
+            refresh.discard(n.id)
+            # the operand local itself (a per-iteration copy such as `_t = copy last`) does not count: what it copies from does
+            r, ps = A.reach(b, A.succs(b, n.id), blocked_nodes=refresh)
+            stale = n.id in r
+            ctx.check(not stale, inst, "PROGRESS", b.path, "a lost compare-exchange re-obtains the expected value before it retries", b.where(n.id),
+                      None if not stale else {"expected": e.show()[:80], "witness": R.witness(b, ps, r.get(n.id))})
+    ctx.check(n_loops >= 4, inst, "anchor", "-", "compare-exchange retry loops examined (>= 4: clock next / observe, memory admission, extent readers; found %d of %d sites)" % (n_loops, n_sites), None)
+
+
 def check(ctx):
+    check_cas_loops(ctx)
     check_requeue(ctx)
     check_readers(ctx)
     check_final_flush(ctx)
